@@ -1,2 +1,255 @@
-Require Import V.Lib V.C02_Model.
-Theorem C02_placeholder : True. Proof. exact I. Qed.
+(* C02 — property theorems only.  Each is closed by [exact]/[apply] of a lemma proved in
+   C02_Proofs.v (refutation witnesses by vm_compute) and followed by Print Assumptions.
+
+   "For every GET or HEAD request path, however it is spelled, the body returned by the
+   file-serving handlers consists only of regular files inside the site root: the file the cleaned
+   path names, its directory's index page, or a precompressed sibling the client accepts.  Nothing
+   outside the root and no hidden file (in particular the origin Casketfile) is ever returned or
+   listed, and every redirect these handlers issue has a Location starting with exactly one '/'."
+
+   The file system is an arbitrary finite tree [fs] (universally quantified), request paths,
+   Accept-Encoding values, hide lists, index-page lists and browse configurations are arbitrary. *)
+Require Import V.Lib V.GoPath V.GoPathProofs V.Gen_C02 V.Gen_C02b V.C02_Model V.C02_Proofs.
+Open Scope N_scope.
+Local Open Scope string_scope.
+
+(* ---- the lexical jail -------------------------------------------------------------------- *)
+(* Whatever bytes the request path consists of (dot segments, repeated slashes, backslashes,
+   percent-decoded anything), the name http.Dir opens is root ++ c where c starts with '/', and
+   every segment of c is non-empty, is not "." or ".." and contains no '/': c never climbs. *)
+Theorem C02_clean_rooted_jail :
+  forall (root name : bytes),
+  has_prefix (jail name) [SLASH] = true /\
+  has_prefix (root ++ jail name) root = true /\
+  exists segs, jail name = SLASH :: join [SLASH] segs /\
+    forall s, In s segs -> s <> [] /\ s <> [DOT] /\ s <> [DOT; DOT] /\ ~ In SLASH s.
+Proof. exact clean_rooted_jail. Qed.
+Print Assumptions C02_clean_rooted_jail.
+
+Theorem C02_jail_idempotent : forall name, jail (jail name) = jail name.
+Proof. exact jail_idem. Qed.
+Print Assumptions C02_jail_idempotent.
+
+(* ---- static files: what is served --------------------------------------------------------- *)
+(* Every body the static file server returns is a node of the jailed tree, opened under the
+   cleaned form of: the request path, one of its index pages, or one of these extended by the
+   extension of an encoding the client accepts (exact-token match). Only GET/HEAD are served. *)
+Theorem C02_static_served_inside_root :
+  forall fs hide pages prefix m req ae n enc,
+  serve_file fs hide pages prefix m req ae = Serve n enc ->
+  is_get_head m = true /\ In n fs /\
+  exists base, (base = req \/ exists pg, In pg pages /\ base = path_join2 req pg) /\
+    match enc with
+    | None => n_path n = jail base
+    | Some e => exists ext, In (e, ext) gen_static_encodings /\ accepts ae e = true /\
+                            n_path n = jail (base ++ ext)
+    end.
+Proof. exact static_served_inside_root. Qed.
+Print Assumptions C02_static_served_inside_root.
+
+(* "its directory's index page": for a rooted request path and an index-page name that is a plain
+   segment, the index page opened is the child of that name of the cleaned directory. *)
+Theorem C02_static_index_is_child_of_cleaned_dir :
+  forall req pg, rooted req -> good_seg pg ->
+  jail (path_join2 req pg) = child_path (jail req) pg.
+Proof. exact index_is_child. Qed.
+Print Assumptions C02_static_index_is_child_of_cleaned_dir.
+
+Example C02_static_index_nonvacuous :
+  jail (path_join2 (bs "/a/./b//../c/") (bs "index.html")) = bs "/a/c/index.html".
+Proof. vm_compute. reflexivity. Qed.
+
+(* "a precompressed sibling": for a request path whose last segment is a proper name (not empty,
+   "." or ".."), whatever precedes it, the sibling name the server opens (path ++ ext) cleans to
+   exactly the cleaned path with ext appended — the sibling of the file the cleaned path names. *)
+Theorem C02_static_sibling_of_cleaned_path :
+  forall p s e ext, In (e, ext) gen_static_encodings -> good_seg s ->
+  jail ((p ++ SLASH :: s) ++ ext) = jail (p ++ SLASH :: s) ++ ext.
+Proof. exact sibling_of_cleaned. Qed.
+Print Assumptions C02_static_sibling_of_cleaned_path.
+
+Example C02_static_sibling_nonvacuous :
+  jail (bs "/x/..//dir/./c.txt" ++ bs ".zst") = bs "/dir/c.txt.zst".
+Proof. vm_compute. reflexivity. Qed.
+
+(* An identity-encoded body is a regular file that is not hidden. *)
+Theorem C02_static_plain_body_regular_not_hidden :
+  forall fs hide pages prefix m req ae n,
+  serve_file fs hide pages prefix m req ae = Serve n None ->
+  n_dir n = false /\ is_hidden fs hide n = false.
+Proof. exact static_plain_body. Qed.
+Print Assumptions C02_static_plain_body_regular_not_hidden.
+
+(* However the path of a hidden regular file is spelled, the answer carries no content at all
+   (it is 404, or the trailing-slash redirect). *)
+Theorem C02_static_hidden_file_every_spelling :
+  forall fs hide pages prefix m req ae d,
+  fs_open fs req = Some d -> n_dir d = false -> is_hidden fs hide d = true ->
+  forall n enc, serve_file fs hide pages prefix m req ae <> Serve n enc.
+Proof. exact hidden_never_served. Qed.
+Print Assumptions C02_static_hidden_file_every_spelling.
+
+Example C02_static_hidden_file_nonvacuous :
+  map (fun p => serve_file fixture_fs gen_c02_hide gen_default_index_pages [SLASH] 0 (bs p) (bs "gzip"))
+      ["/Casketfile"; "/./Casketfile"; "/Casketfile/."; "//dir/..//Casketfile"; "/links/hard-casket"; "/a.txt"]%string
+  = [Status 404; Status 404; Status 404; Status 404; Status 404;
+     Serve {| n_path := bs "/a.txt.gz"; n_dir := false; n_id := 16 |} (Some (bs "gzip"))].
+Proof. vm_compute. reflexivity. Qed.
+
+(* never_hidden, full statement: FALSE of the faithful model.  The precompressed sibling is opened
+   after the IsHidden test and is not tested itself. *)
+Theorem C02_static_never_hidden_refuted :
+  exists fs hide pages req ae n enc,
+  serve_file fs hide pages [SLASH] 0 req ae = Serve n enc /\ is_hidden fs hide n = true.
+Proof. exact static_never_hidden_refuted. Qed.
+Print Assumptions C02_static_never_hidden_refuted.
+
+(* ... the strongest true form: if no hidden file can be reached under a name q ++ ext (ext the
+   extension of a static encoding), then nothing the static file server returns is hidden. *)
+Theorem C02_static_never_hidden_partial :
+  forall fs hide pages prefix m req ae n enc,
+  no_hidden_sibling fs hide ->
+  serve_file fs hide pages prefix m req ae = Serve n enc -> is_hidden fs hide n = false.
+Proof. exact static_never_hidden_partial. Qed.
+Print Assumptions C02_static_never_hidden_partial.
+
+(* "regular files", full statement: FALSE of the faithful model — the sibling lookup does not
+   check that name ++ ext is a regular file; a directory of that name is "served". *)
+Theorem C02_static_serves_regular_file_refuted :
+  exists fs hide pages req ae n enc,
+  serve_file fs hide pages [SLASH] 0 req ae = Serve n enc /\ n_dir n = true.
+Proof. exact static_serves_regular_file_refuted. Qed.
+Print Assumptions C02_static_serves_regular_file_refuted.
+(* (partial form: C02_static_plain_body_regular_not_hidden above) *)
+
+(* ---- the origin Casketfile ---------------------------------------------------------------- *)
+(* hideCasketfile: for an origin inside the root (absolute origin = absolute root ++ c, c cleaned)
+   the hide-list entry is c itself, and opening it through the jail reaches exactly c. *)
+Theorem C02_hide_casketfile_inside_root :
+  forall root name,
+  hide_casketfile root (root ++ jail name) = Some (jail name) /\ jail (jail name) = jail name.
+Proof. exact hide_casketfile_inside. Qed.
+Print Assumptions C02_hide_casketfile_inside_root.
+
+(* ... hence, for EVERY spelling of EVERY request path, no identity-encoded body is the
+   Casketfile (compared as os.SameFile does: hard links included). *)
+Theorem C02_casketfile_never_served :
+  forall fs hide pages root name cf m req ae h,
+  hide_casketfile root (root ++ jail name) = Some h -> In h hide ->
+  fs_open fs (jail name) = Some cf ->
+  forall n, serve_file fs hide pages [SLASH] m req ae = Serve n None -> n_id n <> n_id cf.
+Proof. exact casketfile_never_served. Qed.
+Print Assumptions C02_casketfile_never_served.
+
+(* ---- directory listings -------------------------------------------------------------------- *)
+(* Everything a listing names is a child of the cleaned directory inside the tree and is not
+   hidden. *)
+Theorem C02_listing_inside_root_never_hidden :
+  forall fs hide pages confs m req ae archive kids,
+  browse fs hide pages confs m req ae archive = Listing kids ->
+  forall k, In k kids ->
+    In k fs /\ is_child (jail req) (n_path k) = true /\ is_hidden fs hide k = false.
+Proof. exact listing_sound. Qed.
+Print Assumptions C02_listing_inside_root_never_hidden.
+
+Example C02_listing_nonvacuous :
+  match browse fixture_fs gen_c02_hide gen_default_index_pages [{| b_scope := [SLASH]; b_types := [] |}]
+               0 (bs "//dir/../") [] [] with
+  | Listing kids => existsb (fun k => beq (n_path k) (bs "/a.txt")) kids &&
+                    negb (existsb (fun k => beq (n_path k) (bs "/Casketfile")) kids)
+  | _ => false
+  end = true.
+Proof. vm_compute. reflexivity. Qed.
+
+(* ---- archives ------------------------------------------------------------------------------- *)
+(* Every member of an archive is a node of the tree strictly below the cleaned directory
+   (in particular lexically inside it, hence inside the root). *)
+Theorem C02_archive_inside_root :
+  forall fs hide pages confs m req ae archive ms,
+  browse fs hide pages confs m req ae archive = Archive ms ->
+  forall k, In k ms ->
+    In k fs /\ is_desc (jail req) (n_path k) = true /\ has_prefix (n_path k) (jail req) = true.
+Proof. exact archive_inside_root. Qed.
+Print Assumptions C02_archive_inside_root.
+
+(* never hidden, for archives: FALSE of the faithful model — the walker does not consult the
+   hide list (the archive of the root contains the Casketfile). *)
+Theorem C02_archive_never_hidden_refuted :
+  exists fs hide pages confs req archive ms k,
+  browse fs hide pages confs 0 req [] archive = Archive ms /\ In k ms /\
+  n_dir k = false /\ is_hidden fs hide k = true.
+Proof. exact archive_never_hidden_refuted. Qed.
+Print Assumptions C02_archive_never_hidden_refuted.
+
+(* ---- redirects ------------------------------------------------------------------------------ *)
+(* Every redirect of the static file server (site without path prefix, rooted request path) is a
+   307 whose Location starts with exactly one '/', and contains no backslash right after it. *)
+Theorem C02_static_redirect_same_origin :
+  forall fs hide pages m req ae code loc,
+  rooted req -> serve_file fs hide pages [SLASH] m req ae = Redirect code loc ->
+  code = 307 /\ one_slash loc = true /\ same_origin loc = true.
+Proof. exact static_redirect. Qed.
+Print Assumptions C02_static_redirect_same_origin.
+
+Example C02_static_redirect_nonvacuous :
+  map (fun p => serve_file fixture_fs gen_c02_hide gen_default_index_pages [SLASH] 0 (bs p) [])
+      ["//evil.example/.."; "///evil.example/../a.txt/"; "/\evil.example/../dir"]%string
+  = [Redirect 307 (bs "/"); Redirect 307 (bs "/a.txt"); Redirect 307 (bs "/dir/")].
+Proof. vm_compute. reflexivity. Qed.
+
+(* browse, full statement: FALSE of the faithful model — its add-a-slash redirect has no '//'
+   trimming loop: //evil.example/.. is redirected to the scheme-relative //evil.example/../ *)
+Theorem C02_browse_redirect_same_origin_refuted :
+  exists fs hide pages confs req code loc,
+  rooted req /\ browse fs hide pages confs 0 req [] [] = Redirect code loc /\ same_origin loc = false.
+Proof. exact browse_redirect_same_origin_refuted. Qed.
+Print Assumptions C02_browse_redirect_same_origin_refuted.
+
+(* ... the strongest true form: unless the request path itself starts with "//", every redirect
+   browse issues (its own or the static file server's behind it) stays on the origin. *)
+Theorem C02_browse_redirect_same_origin_partial :
+  forall fs hide pages confs m req ae archive code loc,
+  rooted req -> has_prefix req [SLASH; SLASH] = false ->
+  browse fs hide pages confs m req ae archive = Redirect code loc ->
+  one_slash loc = true /\ same_origin loc = true.
+Proof. exact browse_redirect. Qed.
+Print Assumptions C02_browse_redirect_same_origin_partial.
+
+Example C02_browse_redirect_partial_nonvacuous :
+  browse fixture_fs gen_c02_hide gen_default_index_pages [{| b_scope := [SLASH]; b_types := [] |}]
+         0 (bs "/x/..//dir/sub") [] [] = Redirect 301 (bs "/dir/sub/").
+Proof. vm_compute. reflexivity. Qed.
+
+(* ---- the whole site ---------------------------------------------------------------------- *)
+(* internal in front of browse in front of the static file server ([handle] is the function the
+   harness compares with the real sites): every content-carrying answer and every redirect of
+   every site, for every request. *)
+Theorem C02_site_sound :
+  forall (s : site) (r : request),
+  match handle s r with
+  | Serve n enc =>
+      is_get_head (q_meth r) = true /\ In n (s_fs s) /\
+      served_from (s_pages s) (q_path r) (q_ae r) enc (n_path n) /\
+      (enc = None -> n_dir n = false /\ is_hidden (s_fs s) (s_hide s) n = false) /\
+      (no_hidden_sibling (s_fs s) (s_hide s) -> is_hidden (s_fs s) (s_hide s) n = false)
+  | Listing kids =>
+      forall k, In k kids -> In k (s_fs s) /\ is_child (jail (q_path r)) (n_path k) = true /\
+                             is_hidden (s_fs s) (s_hide s) k = false
+  | Archive ms =>
+      forall k, In k ms -> In k (s_fs s) /\ is_desc (jail (q_path r)) (n_path k) = true /\
+                           has_prefix (n_path k) (jail (q_path r)) = true
+  | Redirect code loc =>
+      rooted (q_path r) -> has_prefix (q_path r) [SLASH; SLASH] = false ->
+      one_slash loc = true /\ same_origin loc = true
+  | Status _ => True
+  end.
+Proof. exact site_sound. Qed.
+Print Assumptions C02_site_sound.
+
+Example C02_site_sound_nonvacuous :
+  map (fun p => match handle (mksite (bs "/srv/www") (bs "/srv/www/Casketfile") [SLASH] gen_archive_types) (mkreq 0 (bs p) (bs "br") []) with
+                | Serve n _ => n_id n | Listing k => 1000 + N.of_nat (length k) | Redirect c _ => c
+                | Status c => c | Archive _ => 2000 end)
+      ["/a.txt"; "/dir/"; "/dir"; "/secret.txt"; "/Casketfile/."]
+  = [15; 1005; 301; 404; 404].
+Proof. vm_compute. reflexivity. Qed.
